@@ -4,6 +4,7 @@ import (
 	"context"
 	"fmt"
 	"sort"
+	"strings"
 	"time"
 
 	kafka "github.com/segmentio/kafka-go"
@@ -128,15 +129,34 @@ func routingScenario(s *Sim, params map[string]string) {
 	// metadata snapshots delivered to the client (from the journal, at the end)
 	var moves []time.Duration
 	var lastEvent time.Duration // last instant the cluster changed
+	readdressed := 0
 	nmoves := t.Range("cfg", 0, 5)
 	endAt := time.Duration(t.Range("cfg", 2, 12)) * time.Second
 	for i := 0; i < nmoves; i++ {
 		at := time.Duration(t.Range("fault", 100, int(endAt/time.Millisecond))) * time.Millisecond
-		kind := t.Intn("fault", 7)
+		kind := t.Intn("fault", 8)
 		s.After(at, "cluster-change", func() {
 			moves = append(moves, s.Now())
 			lastEvent = s.Now()
 			switch kind {
+			case 7:
+				// a broker comes back under another address (a rescheduled pod):
+				// same node id, new host name or new port, no absence in between
+				b := cl.Broker(int32(1 + t.Intn("fault", nb)))
+				isBoot := false
+				for _, a := range boot {
+					isBoot = isBoot || a == b.Addr()
+				}
+				if !b.Up || nb < 2 || isBoot {
+					break // (bootstrap addresses are what stays put: a client that loses all of them cannot find the cluster again)
+				}
+				readdressed++
+				if t.Intn("fault", 2) == 0 {
+					cl.MoveBrokerAddr(b, fmt.Sprintf("%s-r%d", strings.SplitN(b.Host, "-r", 2)[0], readdressed), b.Port)
+				} else {
+					cl.MoveBrokerAddr(b, b.Host, b.Port+int32(readdressed))
+				}
+				downAt = append(downAt, s.Now(), s.Now()) // (its connections were reset: the metadata connection may be among them)
 			case 6:
 				// a leader election in progress: for a while the partition has no
 				// leader (metadata: leader -1, LEADER_NOT_AVAILABLE, the in-sync
@@ -263,7 +283,34 @@ func routingScenario(s *Sim, params map[string]string) {
 					if len(req) == 0 {
 						req[tn] = []kafka.OffsetRequest{kafka.FirstOffsetOf(part)}
 					}
-					client.ListOffsets(ctx, &kafka.ListOffsetsRequest{Topics: req})
+					lres, lerr := client.ListOffsets(ctx, &kafka.ListOffsetsRequest{Topics: req})
+					// once the cluster has been left alone for a few refresh periods
+					// every partition is reachable again
+					settled := s.Now()-lastEvent > 3*ttl+3*time.Second && cl.F.ErrorCode == 0 && cl.F.Stall == 0
+					for x := range req {
+						for _, pp := range cl.Topics[x].Parts {
+							if ld := cl.Broker(pp.Leader); ld == nil || ld.Versions[2][1] < int16(protocol.ApiKey(2).MinVersion()) || ld.Versions[2][0] > int16(protocol.ApiKey(2).MaxVersion()) {
+								settled = false // (a leader with no ListOffsets version in common: its answers are failures by construction)
+							}
+						}
+					}
+					if settled {
+						if lerr != nil {
+							s.Fail("C12", "R5-unreachable", "Client.ListOffsets failed with %v although nothing has happened in the cluster since %v (now %v, MetadataTTL %v)", lerr, lastEvent, s.Now(), ttl)
+						} else {
+							for tn2, pos := range lres.Topics {
+								for _, po := range pos {
+									ld := cl.Broker(cl.Part(tn2, int32(po.Partition)).Leader)
+									if ld != nil && ld.Versions[2][1] < int16(protocol.ApiKey(2).MinVersion()) {
+										continue // (no ListOffsets version in common with that leader)
+									}
+									if po.Error != nil {
+										s.Fail("C12", "R5-unreachable", "Client.ListOffsets: %s[%d] reports %v although nothing has happened in the cluster since %v (now %v, MetadataTTL %v; leader %d at %s)", tn2, po.Partition, po.Error, lastEvent, s.Now(), ttl, cl.Part(tn2, int32(po.Partition)).Leader, cl.Broker(cl.Part(tn2, int32(po.Partition)).Leader).Addr())
+									}
+								}
+							}
+						}
+					}
 				case 3:
 					gid := fmt.Sprintf("rg%d", t.Intn("work", ngrp))
 					client.OffsetFetch(ctx, &kafka.OffsetFetchRequest{GroupID: gid, Topics: map[string][]int{tn: {part}}})
